@@ -10,7 +10,9 @@ Oracle (history based, not incremental): after every operation the stored entrie
 set of minimal elements (component-wise order) of all pairs offered so far; an offer is refused
 iff some *previously stored* entry is <= it in both coordinates; an accepted offer removes exactly
 the stored entries it dominates; ``update`` returns (rho, accept=True) on accept and
-(10*rho, accept=False) on refuse.
+(10*rho, accept=False) on refuse.  Solver level: inside a solve with a filter policy, a refused
+point vetoes the step (the iterate stays, rho of the next step unchanged) and an accepted one is
+adopted with rho == initial penalty * 10^(number of refusals so far).
 """
 
 import itertools
@@ -30,7 +32,10 @@ RULE = (
     "filter_insert and through update; generated part: Hypothesis state machine, floats with ties, "
     "duplicates, signed zeros, 1e+-300. distinct = SHA-256 of the operation list; non-trivial = at "
     "least one refusal and one accepted insert that removed a stored entry (or, for the grid "
-    "enumeration, length >= 3)."
+    "enumeration, length >= 3). Third part (solver level): generated solves with the two filter "
+    "policies on constrained and unconstrained problems; the ComputedStep history is replayed through "
+    "the reference front (refused point => step vetoed, next rho unchanged, filter penalty x10; accepted "
+    "=> adopted, rho == initial * 10^refusals); non-trivial there = >= 1 refusal and >= 2 accepts in the run."
 )
 EXHAUSTIVE = {
     "quick": "all 9^5 = 59049 sequences of length 5 over the 3x3 grid (prefix-closed: 66430 sequences incl. empty), x2 drivers",
@@ -131,7 +136,71 @@ class FilterChecker:
         return None
 
 
+def check_solver_level(case):
+    """Integration clause: inside a solve, a point the filter refuses vetoes the step (the iterate stays)
+    and raises the filter's penalty tenfold; an accepted point is adopted with the penalty unchanged.
+    The ComputedStep history is replayed through the reference Pareto front."""
+    import numpy as np
+
+    from vf import solvecase as SC
+    from vf.trace import make_tracing_solver, run_solve
+
+    labels = ["via:solver", f"penalty:{case['params']['penalty_update']}", f"control:{case['params']['step_control_type']}", f"m:{min(case['spec']['m'], 1)}"]
+    try:
+        problem, params, x0, y0 = SC.build(case)
+        solver = make_tracing_solver(problem, params)
+    except Exception as e:
+        return trivial(f"build:{type(e).__name__}", labels)
+    out = run_solve(problem, params, x0, y0, solver=solver)
+    if out.exc is not None and not out.deliberate:
+        return trivial("crash_is_C06s_subject", labels)
+    trials = out.trials
+    T = len(trials)
+    kind = case["params"]["penalty_update"]
+    front = []
+    rho_f = params.rho
+    refusals = accepts = 0
+    for t in range(T - 1):  # the last step's fate is not observable from the next step
+        tr, nx = trials[t], trials[t + 1]
+        if tr.lamb is None or not tr.accepted:
+            if nx.rho != tr.rho:
+                return violation("solver-rho-changed-without-accept", f"step {t} not accepted but rho went {tr.rho!r} -> {nx.rho!r}", labels, sub=T)
+            continue
+        it = tr.it_out
+        if kind == "ObjectiveFilter":
+            entry = (float(it.obj), float(it.cons_violation))
+        else:
+            lx = it.aug_lag_deriv_x(rho_f)
+            ly = it.aug_lag_deriv_y()
+            entry = (float(np.dot(lx, lx) + np.dot(ly, ly)), float(np.linalg.norm(it.cons)))
+        if not all(np.isfinite(entry)):
+            return trivial("nonfinite_entry", labels, sub=T)
+        refuse = any(le(e, entry) for e in front)
+        adopted = nx.it_in is tr.it_out
+        if refuse:
+            refusals += 1
+            rho_f *= 10.0
+            if adopted:
+                return violation("solver-refused-point-not-vetoed", f"step {t}: the filter front {front} dominates the new point {entry}, but the next step starts from it (no veto); m={case['spec']['m']}", labels, sub=T)
+            if nx.rho != tr.rho:
+                return violation("solver-rho-after-veto", f"step {t} vetoed but the next step's rho is {nx.rho!r} (was {tr.rho!r})", labels, sub=T)
+        else:
+            accepts += 1
+            front = [e for e in front if not le(entry, e)] + [entry]
+            if not adopted:
+                return violation("solver-accepted-point-vetoed", f"step {t}: new point {entry} is not dominated by the front but the step was not adopted", labels, sub=T)
+            if nx.rho != rho_f:
+                return violation("solver-rho-after-accept", f"step {t} adopted: next rho {nx.rho!r}, filter penalty {rho_f!r} (= initial * 10^refusals)", labels, sub=T)
+    if refusals:
+        labels.append("has_refusal")
+    if not (refusals >= 1 and accepts >= 2):
+        return trivial("no_refusal_in_run", labels, sub=max(T, 1))
+    return ok(labels, True, sub=max(T, 1))
+
+
 def check(case):
+    if "spec" in case:
+        return check_solver_level(case)
     ops = case["ops"]
     chk = FilterChecker(case.get("rho0", 1.0))
     for k, op in enumerate(ops):
@@ -174,6 +243,36 @@ VAL = st.one_of(
 )
 
 
+BUDGET_STRATEGY = {"quick": 25, "thorough": 600}
+
+
+def strategy(tier):
+    return solver_case_strategy(tier)
+
+
+def solver_case_strategy(tier):
+    from vf import solvecase as SC
+
+    @st.composite
+    def _s(draw):
+        case = draw(SC.solve_case(families=("nlp", "nlp", "qp", "degenerate"), max_n=3, max_m=2, scalings=("none", "none", "custom"),
+                                  iteration_limit=40, params_kw={"penalties": ["ObjectiveFilter", "LagrangianFilter"]}))
+        if draw(st.booleans()):
+            # unconstrained problems: the violation coordinate always ties
+            sp = dict(case["spec"])
+            sp.update({"m": 0, "A": [], "b": [], "cl": [], "cu": []})
+            for k in ("Hc", "u", "T", "rshift"):
+                sp.pop(k, None)
+            case["spec"] = sp
+            case["start"] = dict(case["start"], y0=None)
+            if case["scaling"].get("kind") == "custom":
+                case["scaling"] = dict(case["scaling"], cw=[])
+        case["params"]["lamb_init"] = draw(st.sampled_from([1e-3, 1e-2, 0.1]))  # long first steps: non-monotone objective
+        return case
+
+    return _s()
+
+
 def machine(tier, sink, checkfn):
     from hypothesis.stateful import RuleBasedStateMachine, initialize, rule
 
@@ -184,6 +283,7 @@ def machine(tier, sink, checkfn):
             self.rho0 = 1.0
             self.chk = None
             self.bad = None
+            self.solver_case = None
 
         @initialize(rho0=st.sampled_from([1e-8, 1.0, 100.0]))
         def init(self, rho0):
